@@ -59,18 +59,18 @@ def c_seg_seg(f1, f2, t1, t2):
 
 # ------------------------------------------------------------------------------------------------ instances
 F_SEGS = {'unit': ((0.0, 0.0), (1.0, 0.0)), 'diag': ((0.5, -1.0), (2.0, 3.0)), 'zero': ((1.0, 1.0), (1.0, 1.0)),
-          'vert': ((0.0, 0.0), (0.0, 2.0))}
+          'vert': ((0.0, 0.0), (0.0, 2.0)), 'long1k': ((0.0, 0.0), (1000.0, 0.0))}
 DIRS = {'E': (1, 0), 'W': (-1, 0), 'N': (0, 1), 'S': (0, -1), 'NE': (1, 1), 'SW': (-1, -1), 'NW': (-1, 1), 'SE': (1, -1),
-        'par_diag': (1.5, 4.0), 'anti_diag': (-1.5, -4.0)}
+        'par_diag': (1.5, 4.0), 'anti_diag': (-1.5, -4.0), 'shallow': (1000.0, 1.0), 'shallow_back': (-1000.0, 3.0)}
 
 
 def instances(tier):
     inst = [('distance',), ('project',), ('dps',), ('box',), ('dss_struct',), ('project_delta',), ('dps_delta',)]
     if tier == 'quick':
-        pairs = [('unit', d) for d in ('E', 'W', 'N', 'NE')] + [('diag', d) for d in ('par_diag', 'anti_diag')]
+        pairs = [('unit', d) for d in ('E', 'W', 'N', 'NE')] + [('diag', d) for d in ('par_diag', 'anti_diag')] + [('long1k', 'shallow'), ('long1k', 'shallow_back'), ('unit', 'shallow')]
     else:
         pairs = [(f, d) for f in F_SEGS for d in DIRS
-                 if not (f in ('unit', 'vert', 'zero') and d in ('par_diag', 'anti_diag'))]
+                 if not (f in ('unit', 'vert', 'zero', 'long1k') and d in ('par_diag', 'anti_diag'))]
     for f, d in pairs:
         inst.append(('dss_min', f, d))
     if tier == 'thorough':
